@@ -17,6 +17,13 @@ void orc_c02_send(SendRec &s) {
 }
 
 void orc_c02_delivery(Delivery &d) {
+    bool has_msg = false;
+    for (auto &e : d.evts) if (e.type == M_SRC_TYPE_PS && !e.system) has_msg = true;
+    if (has_msg && d.state_at_entry != ST_RUNNING) {
+        char sig[96];
+        snprintf(sig, sizeof sig, "C02:delivered-while-%s%s", st_name(d.state_at_entry), d.looping_known && !d.ctx_looping ? ":final-flush" : "");
+        VIOL("C02", sig, "messages handed to module slot %d while it is %s (a recipient that is not RUNNING gets nothing; PAUSED at loop end means discarded)", d.slot, st_name(d.state_at_entry));
+    }
     for (auto &e : d.evts) {
         if (e.type != M_SRC_TYPE_PS || e.system) continue;
         oracle_eval("C02.delivery-matches-send");
@@ -178,6 +185,26 @@ void orc_c03_quiescent() {
         if (got >= 0 && got != want)
             VIOL("C03", "C03:oneshot-still-registered", "module slot %d reports %ld registered sources, %ld are expected after its one-shot source(s) fired", s.idx, got, want);
     }
+    // arrival log vs deliveries: a user descriptor the kernel reported ready must reach its RUNNING owner
+    // (a level-triggered one may be skipped once when an earlier event of the batch failed; it is then reported again)
+    if (W->quiescent_real) {
+        oracle_eval("C03.reported-descriptor-delivered");
+        for (; W->batches_seen < R->k.batches.size(); W->batches_seen++) {
+            const sim::BatchRec &b = R->k.batches[W->batches_seen];
+            for (auto &it : b.items)
+                for (auto &s : W->slots) {
+                    if (s.st != ST_RUNNING || s.st_gseq > b.gseq || s.ctx_gen != W->ctx_registrations) continue;
+                    for (auto &x : s.srcs) {
+                        if (x.type != M_SRC_TYPE_FD || (x.flags & M_SRC_DUP) || x.fd != it.fd || x.reg_gseq > b.gseq) continue;
+                        if (x.delivered_gseq > b.gseq) { x.missed_polls = 0; continue; }
+                        x.missed_polls++;
+                        if (x.missed_polls >= 2 || it.oneshot)
+                            VIOL("C03", it.oneshot ? "C03:reported-event-not-delivered:fd:oneshot" : "C03:reported-event-not-delivered:fd",
+                                 "descriptor %d of module slot %d was reported ready by %d consecutive poll(s) but no event was handed to the module, which stayed RUNNING", x.fd, s.idx, x.missed_polls);
+                    }
+                }
+        }
+    }
     // a blocking loop polls again only while it has a reason to keep running
     if (W->quiescent_real && !W->loops.empty() && !W->loops.back().ended && W->loops.back().blocking) {
         oracle_eval("C03.loop-continues-only-with-reason");
@@ -190,6 +217,22 @@ void orc_c03_quiescent() {
 }
 
 void orc_c03_loop_end(LoopRun &lr) {
+    // "...after still-pending messages were handed to RUNNING modules"
+    if (!lr.poll_failure) {
+        oracle_eval("C03.pending-messages-flushed");
+        for (auto &sd : W->sends) {
+            if (sd.rc != 0 || sd.kind == 3 || sd.in_flush || sd.gseq > lr.end_gseq) continue;
+            for (int e : sd.eligible) {
+                if (sd.delivered.count(e) || sd.dead.count(e) || sd.unknown.count(e) || sd.oneshot_matched.count(e) || has(sd.overflow, e)) continue;
+                Slot &r = W->slots[e];
+                if (r.st != ST_RUNNING || r.last_non_running_gseq >= sd.gseq || r.batch_size || r.batch_timeout || r.ctx_gen != W->ctx_registrations) continue;
+                if (r.pills_pending) continue;
+                VIOL("C03", lr.quit_requested ? "C03:pending-message-not-flushed:quit" : "C03:pending-message-not-flushed",
+                     "%s #%ld (sent at event %lu) was still pending for module slot %d, RUNNING since before it was sent, when the loop returned %d: it was never handed over",
+                     kind_name(sd.kind), sd.id, (unsigned long)sd.gseq, e, lr.rc);
+            }
+        }
+    }
     oracle_eval("C03.loop-exit-reason");
     int running = 0;
     for (auto &s : W->slots) if (s.st == ST_RUNNING && s.ctx_gen == W->ctx_registrations) running++;
